@@ -439,32 +439,40 @@ func (e *udpEngine) reader(idx int, pc *net.UDPConn) {
 	}
 	for {
 		j := e.take(idx)
-		if j == nil {
-			// Ring empty and the stretch at its bound: consume and shed.
-			// The reader never blocks for a slab — a deep queue only
-			// converts drops to timeouts.
-			_, _, _, _, err := pc.ReadMsgUDPAddrPort(discard[:], nil)
-			if err != nil {
-				if isAdmissionStopErr(err) {
-					return
-				}
-				continue
-			}
-			udpDropFull.Inc()
-			continue
+		buf := discard[:]
+		if j != nil {
+			j.transition(udpJobFree, udpJobReading)
+			buf = j.rx[:]
 		}
-
-		j.transition(udpJobFree, udpJobReading)
-		n, oobn, flags, raddr, err := pc.ReadMsgUDPAddrPort(j.rx[:], oobBuf)
+		// With the ring empty and the stretch at its bound the read goes
+		// into scratch memory: the reader never blocks for a slab — a deep
+		// queue only converts drops to timeouts.
+		n, oobn, flags, raddr, err := pc.ReadMsgUDPAddrPort(buf, oobBuf)
 		if err != nil {
-			j.release(udpJobReading)
+			if j != nil {
+				j.release(udpJobReading)
+			}
 			if isAdmissionStopErr(err) {
 				return
 			}
 			// Transient errors (including truncation reported as an
 			// error on some platforms) drop the packet, never the loop.
-			udpDropError.Inc()
+			if j != nil {
+				udpDropError.Inc()
+			}
 			continue
+		}
+		if j == nil {
+			// The ring was empty when this read began, but the read may
+			// have waited long after it refilled: the overload is over
+			// and this is the first datagram of the quiet that followed.
+			// It is shed only if there is still no slab for it.
+			if j = e.take(idx); j == nil {
+				udpDropFull.Inc()
+				continue
+			}
+			j.transition(udpJobFree, udpJobReading)
+			copy(j.rx[:], discard[:n])
 		}
 		if flags&msgTrunc != 0 {
 			// The datagram exceeded the buffer class; a partial packet
